@@ -360,12 +360,15 @@ func (obj *SparseConstInt8VectorJointIterator) Index() int {
   return obj.idx
 }
 func (obj *SparseConstInt8VectorJointIterator) Ok() bool {
-  return !(obj.s1.GetInt8() == int8(0)) ||
-         !(obj.s2.GetInt8() == int8(0))
+  return obj.idx != -1
 }
 func (obj *SparseConstInt8VectorJointIterator) Next() {
   ok1 := obj.it1.Ok()
   ok2 := obj.it2.Ok()
+  if !ok1 && !ok2 {
+    // all iterators are exhausted
+    obj.idx = -1
+  }
   obj.s1 = ConstInt8(0)
   obj.s2 = ConstInt8(0)
   if ok1 {
